@@ -143,20 +143,29 @@ pub enum Step {
     PollAfterDone,
 }
 
-pub fn decode_script(a: u8, b: u8) -> [Step; 4] {
+/// `bias`: 0 = neutral, 1 = cancellation-heavy (C15), 2 = re-poll-heavy (C16).
+pub fn decode_script(a: u8, b: u8, bias: u8) -> [Step; 4] {
     let nib = [a & 15, a >> 4, b & 15, b >> 4];
     let mut out = [Step::Await; 4];
     for i in 0..4 {
-        out[i] = match nib[i] {
-            0 => Step::Await,
-            1 => Step::PollSame,
-            2 => Step::PollNew,
-            3 => Step::WaitPoll,
-            4 => Step::Yield(2),
-            5 => Step::Yield(20),
-            6 => Step::Drop,
-            7 => Step::Yield(300),
-            8 => Step::PollAfterDone,
+        out[i] = match (nib[i], bias) {
+            (0, _) => Step::Await,
+            (1, _) => Step::PollSame,
+            (2, _) => Step::PollNew,
+            (3, _) => Step::WaitPoll,
+            (4, _) => Step::Yield(2),
+            (5, _) => Step::Yield(20),
+            (6, _) => Step::Drop,
+            (7, _) => Step::Yield(300),
+            (8, _) => Step::PollAfterDone,
+            (9, 1) | (10, 1) | (13, 1) => Step::Drop,
+            (11, 1) => Step::Yield(1),
+            (12, 1) => Step::Yield(7),
+            (14, 1) => Step::Yield(60),
+            (9, 2) | (13, 2) => Step::PollSame,
+            (10, 2) | (11, 2) => Step::PollNew,
+            (12, 2) => Step::WaitPoll,
+            (14, 2) => Step::PollAfterDone,
             _ => Step::Await,
         };
     }
@@ -247,6 +256,8 @@ pub struct Profile {
     /// ops of the low-priority prober thread (0 = none)
     pub prober_ops: usize,
     pub prober_weights: Vec<(K, u32)>,
+    /// how async scripts are decoded (see `decode_script`)
+    pub script_bias: u8,
 }
 
 fn pick_weighted(w: &[(K, u32)], b: u8) -> K {
@@ -293,6 +304,7 @@ pub struct Program {
     pub threads: Vec<Vec<Op>>,
     pub prober: Vec<Op>,
     pub sched: Vec<u8>,
+    pub script_bias: u8,
 }
 
 impl Case {
@@ -365,6 +377,7 @@ impl Case {
             threads,
             prober,
             sched,
+            script_bias: p.script_bias,
         }
     }
 
